@@ -371,7 +371,10 @@ def gen_history(rng, nops=None):
         k = rng.random()
         if k < 0.06:
             f = rng.choice(w.fits)
-            w.emit('setdmg %d %s' % (f, prof(rnd_dmg_profile(rng, valid=rng.random() < 0.9))))
+            if rng.random() < 0.25:
+                w.emit('setdmg %d %s' % (f, rng.choice(['!none', '!tuple', '!resist'])))
+            else:
+                w.emit('setdmg %d %s' % (f, prof(rnd_dmg_profile(rng, valid=rng.random() < 0.9))))
         elif k < 0.16:
             w.op_charge()
         elif k < 0.30:
